@@ -235,6 +235,17 @@ def beta2_ref(p, f):
     return -lam * lam * dispersion_ref(p, f) / (2 * math.pi * C)
 
 
+def cd_ref(p, f, length):
+    """chromatic dispersion a span of `length` m adds at frequency f: -(beta2 + 2 pi beta3 (f - f_ref)) 2 pi f_ref^2 / c L
+    (scalar dispersion; beta3 from the slope when one is given)"""
+    fr = ref_frequency(p)
+    b2 = beta2_ref(p, f)
+    b3 = 0.0
+    if p.get('dispersion_slope') is not None and not p.get('dispersion_per_frequency'):
+        b3 = (p['dispersion_slope'] - 4 * math.pi * f ** 3 / C ** 2 * b2) / (2 * math.pi * f ** 2 / C) ** 2
+    return -(b2 + 2 * math.pi * b3 * (f - fr)) * 2 * math.pi * fr ** 2 / C * length
+
+
 def eff_area0(p):
     lam = C / ref_frequency(p) if 'ref_wavelength' not in p else p['ref_wavelength']
     if p.get('effective_area') is not None:
